@@ -61,6 +61,14 @@ def offset_family(rng, n, nb, fam, amp):
                                f32(rng.uniform(-amp, amp)),
                                # displacements far below one cell (a wake kick of one step): they must still be interpolated
                                f32(rng.choice([1e-4, -1e-4, 5e-4, -7e-4, 3e-6]))]) for _ in range(n)]
+        elif fam == "nearwhole":
+            # displacements a hair below (or above) a whole number of cells: centre + displacement rounds to the next
+            # cell while the displacement itself does not - origin and weights must come from the SAME number
+            row = []
+            for _ in range(n):
+                kk = rng.randint(-int(amp), int(amp))
+                e = rng.choice([2.0 ** -12, 2.0 ** -17, 2.0 ** -19, 2.0 ** -21, 2.0 ** -23])
+                row.append(f32(kk + rng.choice([1 - e, -e, e, 1 - 2 * e])))
         elif fam == "frac":
             row = [f32(rng.uniform(-amp, amp)) for _ in range(n)]
         elif fam == "affine":
